@@ -212,6 +212,20 @@ class CurrentSchedule:
         return hash(repr(self.spec))
 
     def __call__(self, t):
+        val = self._value(t)
+        if self.spec.get("reuse_dict"):
+            # a user callable that keeps ONE dict object and updates it in place on every call
+            if not hasattr(self, "_d"):
+                self._d = {}
+            self._d.clear()
+            self._d.update(val)
+            return self._d
+        return val
+
+    def __getstate__(self):
+        return {"spec": self.spec}
+
+    def _value(self, t):
         s = self.spec
         if s["kind"] == "pw":
             return dict(_pw_value(t, s["times"], s["values"]))
@@ -228,7 +242,7 @@ def current_at(spec, t):
         return {}
     if spec["kind"] in ("const", "const_callable"):
         return dict(spec["I"])
-    return CurrentSchedule(spec)(t)
+    return CurrentSchedule(spec)._value(t)
 
 
 def build_currents(spec):
